@@ -94,6 +94,7 @@ class Sig:
                aggs=None):
     self.name = name
     self.fields = list(fields)       # [(f, type)]
+    self.values = {}                 # for EDBs: field -> values in the facts
     self.inline = inline
     self.params = list(params)       # for inline: fields that are inputs
     self.distinct = distinct
@@ -272,8 +273,11 @@ class Gen:
       t = 'n' if self.VarsOf(env, 'n') else ('s' if self.VarsOf(env, 's')
                                              else t)
     op = r.choice(['==', '!=', '<', '<=', '>', '>='])
-    c = Op(op, self.Expr(t, env, depth + 1, False),
-           self.Expr(t, env, depth + 1, False))
+    lhs = self.Expr(t, env, depth + 1, False)
+    rhs = self.Expr(t, env, depth + 1, False)
+    if lhs == rhs:
+      rhs = Lit(self.Const(t))
+    c = Op(op, lhs, rhs)
     if depth < 1 and r.random() < 0.2:
       self.features.add('boolop')
       return Op(r.choice(['&&', '||']), c, self.Cond(env, depth + 1))
@@ -299,8 +303,13 @@ class Gen:
       elif self.Scalar(ft) and same and x < p['p_join']:
         e = Var(r.choice(same))
         self.features.add('join')
-      elif self.Scalar(ft) and x < p['p_join'] + p['p_const_arg']:
-        e = Lit(self.Const(ft))
+      elif self.Scalar(ft) and x < p['p_join'] + p['p_const_arg'] * (
+          1.0 if sig.values else 0.3):
+        vals = [v for v in sig.values.get(f, []) if v != NULL]
+        # mostly a value that occurs in the facts, so that rules are not
+        # vacuously empty
+        e = Lit(r.choice(vals) if vals and r.random() < 0.8
+                else self.Const(ft))
         self.features.add('const_arg')
       elif (self.Scalar(ft) and env and
             x < p['p_join'] + p['p_const_arg'] + p['p_expr_arg']):
@@ -503,7 +512,10 @@ class Gen:
       rows.append(rows[0])
     rules = [Rule([(f, Lit(v), '') for (f, _), v in zip(fields, row)])
              for row in rows]
-    self.sigs.append(Sig(name, fields))
+    sig = Sig(name, fields)
+    for i, (f, _) in enumerate(fields):
+      sig.values[f] = [row[i] for row in rows]
+    self.sigs.append(sig)
     self.preds.append(Pred(name, rules))
 
   def HeadFields(self, functional, max_pos=2):
